@@ -557,6 +557,19 @@ def r19_8(run):
                     if t is None:
                         continue
                     for x in walk(t):
+                        if x[0] == "call" and x[1] in (("x", "numpy.full"), ("x", "numpy.zeros"), ("x", "numpy.ones"), ("x", "numpy.empty")) \
+                                and id(x) not in seen_:
+                            # np.full(n, v, dtype=<dtype of the argument>) is the same cast spelled out
+                            dt = dict(x[3]).get("dtype") or (x[2][2] if x[1][1] == "numpy.full" and len(x[2]) > 2 else
+                                                              x[2][1] if x[1][1] != "numpy.full" and len(x[2]) > 1 else None)
+                            if dt is None or not any(contains(dt, p) for p in params):
+                                continue
+                            seen_.add(id(x))
+                            n += 1
+                            run.analysed(f)
+                            run.ob("%s|filled-buffer-is-float|%s" % (f.short, tshow(x)[:50]), False,
+                                   "a buffer %s fills with a computed value does not inherit the dtype of its argument" % f.short,
+                                   run.where(f, e.node), detail=tshow(x)[:120])
                         if x[0] == "call" and x[1] == ("x", "numpy.full_like") and x[2] and id(x) not in seen_:
                             seen_.add(id(x))
                             from_arg = any(contains(x[2][0], p) for p in params)
